@@ -45,8 +45,8 @@ func (a *AttrConditionPlanner) Process(ctx *shared.PlannerContext) (sql.ISelect,
 	}
 
 	res := main.AndHaving(having)
-	if len(where) > 0 {
-		// a selector made of duration terms only has no key/val pre-filter: `and ()` is not SQL
+	if len(where) > 0 && !a.holdsWithoutIndexedTerm(a.Conds) {
+		// no clause for an empty term list (`and ()` is not SQL), none when it could hide a matching span
 		res = res.AndWhere(sql.Or(where...))
 	}
 
@@ -72,6 +72,21 @@ func (a *AttrConditionPlanner) Process(ctx *shared.PlannerContext) (sql.ISelect,
 	a.isAliased = false
 
 	return res, nil
+}
+
+// holdsWithoutIndexedTerm tells whether the condition can be true of a span none of whose index rows
+// passes a key/val test. Only `duration` terms look at no key/val. The pre-filter keeps the rows that
+// pass the key/val test of some term, so it may be applied only when this is false: otherwise
+// {duration > 1s || .a = "b"} loses the long spans without a = "b"
+func (a *AttrConditionPlanner) holdsWithoutIndexedTerm(c *condition) bool {
+	if c.simpleIdx != -1 {
+		return a.Terms[c.simpleIdx].Label == "duration"
+	}
+	l, r := a.holdsWithoutIndexedTerm(c.complex[0]), a.holdsWithoutIndexedTerm(c.complex[1])
+	if c.op == "&&" {
+		return l && r
+	}
+	return l || r
 }
 
 func (a *AttrConditionPlanner) maybeCreateWhere() error {
